@@ -3,7 +3,7 @@
     together with the state reached) is what the R7RS rules assign. *)
 From Coq Require Import ZArith NArith List Bool Lia.
 From RV Require Import Model.Common Model.Real32 Model.Num Model.Datum Model.Macro Model.Ast
-  Model.Value Model.Builtins Model.Eval Spec.EvalSpec Proofs.Basics.
+  Model.Value Model.Builtins Model.Eval Spec.EvalSpec Proofs.Basics Proofs.StoreProofs.
 Import ListNotations.
 
 (** one-step unfoldings *)
@@ -515,3 +515,110 @@ Proof.
   - now apply step_tramp.
   - now apply step_bapply.
 Qed.
+
+(** ** consequences used by C08 *)
+
+Lemma errors_sound : forall fuel e env st k l st',
+  eval_expr fuel e env st = (Err k l, st') -> ev st env e (Err k l) st'.
+Proof. intros. eapply (s_expr fuel (sound_all fuel)); [eassumption|discriminate]. Qed.
+
+Lemma refail_not_Ok : forall {A B} (r : res A) (v : B), failed r -> @refail A B r <> Ok v.
+Proof. intros A B [a|k l|s|] v H; cbn in *; try contradiction; discriminate. Qed.
+
+Lemma app_arity_checked : forall st p args r st' fixed variadic,
+  app st p args r st' -> proc_arity p = Some (fixed, variadic) ->
+  arity_ok (length args) fixed variadic = false ->
+  r = Err ArgumentMissMatch None /\ st' = st.
+Proof.
+  intros st p args r st' fixed variadic H HP HA. inversion H; subst.
+  - congruence.
+  - auto.
+  - rewrite HP in *. match goal with H1 : Some _ = Some _ |- _ => injection H1 as <- <- end. congruence.
+  - unfold proc_arity in HP. rewrite apply_arity in HP. injection HP as <- <-.
+    unfold arity_ok in HA. cbn in HA. rewrite ?orb_true_r in HA. discriminate HA.
+  - unfold proc_arity in HP. rewrite apply_arity in HP. injection HP as <- <-.
+    unfold arity_ok in HA. cbn in HA. rewrite ?orb_true_r in HA. discriminate HA.
+  - unfold proc_arity in HP. rewrite apply_arity in HP. injection HP as <- <-.
+    unfold arity_ok in HA. cbn in HA. rewrite ?orb_true_r in HA. discriminate HA.
+  - unfold proc_arity in HP. rewrite apply_arity in HP. injection HP as <- <-.
+    unfold arity_ok in HA. cbn in HA. rewrite ?orb_true_r in HA. discriminate HA.
+  - cbn in HP. injection HP as <- <-. congruence.
+Qed.
+
+Lemma tramp_arity : forall fuel p args env st fixed variadic,
+  proc_arity p = Some (fixed, variadic) -> arity_ok (length args) fixed variadic = false ->
+  apply_proc (S (S fuel)) p args env st = (Err ArgumentMissMatch None, st).
+Proof. intros. rewrite apply_proc_S, tramp_S, H, H0. reflexivity. Qed.
+
+(** a call yields a value only if its operator evaluated to a procedure, a variable reference
+    only if the variable is bound, an assignment only if it is bound *)
+Lemma call_value_needs_procedure : forall st env fe args l v st',
+  ev st env (ECall fe args l) (Ok v) st' ->
+  exists fv st1 vs st2, ev st env fe (Ok fv) st1 /\ is_proc fv = true /\
+                        evs st1 env args (Ok vs) st2 /\ app st2 fv vs (Ok v) st'.
+Proof.
+  intros st env fe args l v st' H. inversion H; subst.
+  - eauto 10.
+  - exfalso. eapply refail_not_Ok; eauto.
+  - exfalso. eapply refail_not_Ok; eauto.
+Qed.
+
+Lemma ref_value_needs_binding : forall st env x l v st',
+  ev st env (ESym x l) (Ok v) st' -> env_get st env x = Some v /\ st' = st.
+Proof. intros st env x l v st' H. inversion H; subst. auto. Qed.
+
+Lemma set_value_needs_binding : forall st env x e l v st',
+  ev st env (ESet x e l) (Ok v) st' ->
+  exists w st1, ev st env e (Ok w) st1 /\ env_set st1 env x w = Some st' /\ v = VVoid.
+Proof.
+  intros st env x e l v st' H. inversion H; subst.
+  - eauto.
+  - exfalso. eapply refail_not_Ok; eauto.
+Qed.
+
+Lemma grows_of_eq : forall st st', frames st' = frames st ->
+  length (vectors st) <= length (vectors st') -> grows st st'.
+Proof. intros st st' H1 H2. unfold grows. rewrite H1. lia. Qed.
+
+(** states only grow along an evaluation: no frame and no vector ever disappears *)
+Lemma ev_grows_all :
+  (forall st env e r st', ev st env e r st' -> grows st st') /\
+  (forall st env es r st', evs st env es r st' -> grows st st') /\
+  (forall st p args r st', app st p args r st' -> grows st st') /\
+  (forall st fm defs body closure args r st', evproc st fm defs body closure args r st' -> grows st st') /\
+  (forall st env defs r st', evdefs st env defs r st' -> grows st st') /\
+  (forall st env body r st', evbody st env body r st' -> grows st st').
+Proof.
+  apply ev_mutind; intros;
+    repeat match goal with
+    | H : read_literal _ _ = (_, _) |- _ => apply read_literal_grows in H; destruct H as [? [? [? ?]]]
+    | H : env_set _ _ _ _ = Some _ |- _ => apply env_set_grows in H
+    | H : builtin_call _ _ _ = (_, _) |- _ => apply builtin_call_frames in H; destruct H as [? ?]
+    | H : bind_fixed _ _ _ _ = Ok (_, _) |- _ => apply bind_fixed_grows in H
+    end;
+    subst;
+    try (apply grows_refl);
+    try (apply grows_of_eq; assumption);
+    try (unfold grows in *; intuition (try congruence; try lia); fail).
+  - (* evproc_body *)
+    match goal with
+    | Ha : grows (snd (alloc_frame st (Some closure))) ?s1, Hb : grows ?m ?s3, Hc : grows ?s3 ?s4 |- grows st ?s4 =>
+        assert (G : grows s1 m) by (destruct (f_rest fm); [apply env_define_grows|apply grows_refl]);
+        eapply grows_trans; [apply (alloc_frame_grows st (Some closure))|];
+        eapply grows_trans; [exact Ha|]; eapply grows_trans; [exact G|];
+        eapply grows_trans; [exact Hb|exact Hc]
+    end.
+  - match goal with
+    | Ha : grows (snd (alloc_frame st (Some closure))) ?s1, Hb : grows ?m ?s3 |- grows st ?s3 =>
+        assert (G : grows s1 m) by (destruct (f_rest fm); [apply env_define_grows|apply grows_refl]);
+        eapply grows_trans; [apply (alloc_frame_grows st (Some closure))|];
+        eapply grows_trans; [exact Ha|]; eapply grows_trans; [exact G|exact Hb]
+    end.
+  - apply alloc_frame_grows.
+  - eapply grows_trans; [eassumption|]. eapply grows_trans; [apply env_define_grows|eassumption].
+Qed.
+
+Lemma ev_state_grows : forall st env e r st',
+  ev st env e r st' ->
+  length (frames st) <= length (frames st') /\ length (vectors st) <= length (vectors st').
+Proof. intros. eapply (proj1 ev_grows_all); eassumption. Qed.
